@@ -87,7 +87,7 @@ static Weights
 profile_weights (const std::string& prof)
 {
   // base weights per group
-  unsigned g = 35, s = 20, w = 15, c = 10, o = 10, a = 0, m = 10;
+  unsigned g = 33, s = 19, w = 15, c = 10, o = 9, a = 5, m = 9;
   if (prof == "whole")   { g = 22; s = 10; w = 36; c = 16; o = 4;  a = 0;  m = 12; }
   if (prof == "grow")    { g = 50; s = 18; w = 10; c = 6;  o = 2;  a = 4;  m = 10; }
   if (prof == "alias")   { g = 20; s = 12; w = 6;  c = 6;  o = 2;  a = 44; m = 10; }
@@ -449,7 +449,7 @@ replay (const std::string& path, const std::string& prop_override, bool quiet)
   if (cfg == 0) { std::fprintf (stderr, "unknown configuration %s\n", p.cfg.c_str ()); return 3; }
   RunOptions o; o.probes = ps->probes;
   o.small_only = (p.mode == "small");
-  if (ps->fault) { o.fault_mode = true; o.fault_k = p.fault_k; o.fault_j = p.fault_j; o.fault_mask = ps->fault_mask; }
+  if (ps->fault || p.fault_k != 0) { o.fault_mode = true; o.fault_k = p.fault_k; o.fault_j = p.fault_j; o.fault_mask = ps->fault ? ps->fault_mask : MASK_ALL; }
   g_current = &p;
   RunResult r;
   cfg->run (p, o, r);
@@ -483,7 +483,7 @@ main (int argc, char **argv)
   std::string prop, cfgname, out, replay_out, replay_path, mode, emit_path;
   unsigned long long seed = 1;
   unsigned cases = 1000, max_len = 60, max_size = 96;
-  bool list = false;
+  bool list = false, force_fault = false;
   for (int i = 1; i < argc; ++i)
   {
     const std::string a = argv[i];
@@ -502,6 +502,7 @@ main (int argc, char **argv)
     else if (a == "--emit") { emit_path = next; ++i; }
     else if (a == "--fp-out") { fp_path = next; ++i; }
     else if (a == "--list") list = true;
+    else if (a == "--fault") force_fault = true;
     else { std::fprintf (stderr, "unknown argument %s\n", a.c_str ()); return 3; }
   }
   if (list)
@@ -517,8 +518,11 @@ main (int argc, char **argv)
   if (! replay_path.empty ())
     return replay (replay_path, prop, false);
 
-  const PropSpec *ps = find_prop (prop);
-  if (ps == 0) { std::fprintf (stderr, "unknown or missing --prop\n"); return 3; }
+  const PropSpec *ps0 = find_prop (prop);
+  if (ps0 == 0) { std::fprintf (stderr, "unknown or missing --prop\n"); return 3; }
+  PropSpec forced = *ps0;
+  if (force_fault) { forced.fault = true; forced.fault_mask = MASK_ALL; }
+  const PropSpec *ps = &forced;
   const ConfigEntry *cfg = find_config (cfgname);
   if (cfg == 0) { std::fprintf (stderr, "unknown or missing --cfg\n"); return 3; }
   if (seed == 0) seed = 1;
